@@ -7,7 +7,7 @@
    third-party decoder returned for it), so the comparison covers openGemini's own framing and the raw layout fed to
    the compressor. *)
 From Coq Require Import ZArith List Bool.
-From OG Require Import C07.Model.
+From OG Require Import C07.Model C07.ModelRows.
 Import ListNotations.
 Open Scope Z_scope.
 
@@ -96,3 +96,12 @@ Definition check_seg (t : ctype) (m : hmode) (rows : list row) (real : list Z) :
   | None => 6
   end.
 Definition le8 (v : Z) : list Z := le 8 v.
+
+(* rows codec: 1 some row breaks a length-field bound; 2 e_batch differs from the real bytes; 4 the model decoder does
+   not accept the real bytes or what it returns does not re-encode to them; 8 the model accepts one of the given
+   strict prefixes (row boundaries and their neighbours) *)
+Definition check_rows (rs : list rrow) (real : list Z) (ks : list Z) : Z :=
+  (if forallb row_ok rs && (len rs <? M32) then 0 else 1) +
+  (if list_eqb (e_batch rs) real then 0 else 2) +
+  (match d_batch real with Some rs' => if list_eqb (e_batch rs') real then 0 else 4 | None => 4 end) +
+  (if forallb (fun k => match d_batch (firstn (Z.to_nat k) real) with None => true | Some _ => false end) ks then 0 else 8).
